@@ -206,6 +206,7 @@ impl Prop for C16 {
                             c = cl;
                             continue;
                         }
+                        Op::Swap => continue,
                     };
                     rd::apply(&mut c, &cop)?;
                     let log = take_log(&ctl);
